@@ -9,7 +9,7 @@ pid, m = sys.argv[1], sys.argv[2]
 checks = [pid]
 if "--checks" in sys.argv:
     checks = sys.argv[sys.argv.index("--checks") + 1].split(",")
-wt = f"/tmp/seed/{pid}"
+wt = f"{os.environ.get('SEED_ROOT', '/tmp/seed')}/{pid}"
 sd = f"{wt}/_seed/{m}"
 dest = f"/verif/seeded/{pid}-{m}"
 patch = f"{sd}/patch.diff"
